@@ -334,6 +334,9 @@ class Summary:
         self.missing_covers = []
 
 
+MAX_VIOLATED_PATHS = int(os.environ.get("PYSYM_MAX_VIOLATED", "400"))
+
+
 def explore(spec, tier, seed=0, nproc=None, known_active=(), time_limit_s=None, validate_rate=None, pool=None):
     nproc = nproc or min(16, os.cpu_count() or 4)
     summ = Summary(spec, tier)
@@ -383,6 +386,10 @@ def explore(spec, tier, seed=0, nproc=None, known_active=(), time_limit_s=None, 
                 summ.models.update(out.get("models", []))
             if time_limit_s and time.perf_counter() - t0 > time_limit_s:
                 summ.incomplete = "time limit of %ds reached with work outstanding" % time_limit_s
+                break
+            if summ.by_status.get("violation", 0) >= MAX_VIOLATED_PATHS and (queue or outstanding):
+                # enough counterexamples to report (each is replayed natively before it is printed)
+                summ.incomplete = "exploration stopped after %d violated paths" % summ.by_status["violation"]
                 break
     finally:
         if own_pool:
